@@ -1,4 +1,5 @@
-(* P19b stage 3 - incremental builds, part 1: vocabulary.  Restrictions of this development: the rule table is fixed, no earlier build was cancelled. *)
+(* P19b stage 3 - incremental builds, part 1: vocabulary.  Restriction of this development: no earlier build was cancelled (no rule carries
+   the flag "cancelled"); rule tables may be edited between builds (rows are relative to a table R of rules by key and signature). *)
 From LLB Require Import Engine.Rules Engine.Spec Engine.SpecInv1 Engine.Impl Engine.ImplProofs Engine.ImplProofsSticky Engine.ImplProofsInv
   Engine.ImplProofsInv2 Engine.ImplVal1.
 From Coq Require Import Arith Lia.
@@ -42,7 +43,7 @@ Notation n1 := (n1 rules).
 Notation n2 := (n2 rules).
 Notation key_of_slot := (key_of_slot rules env F rank).
 
-(* ---------- rows: what a stored result says (the row_ok of SpecInv1 without single-use and discovered dependencies) ---------- *)
+(* ---------- rows: what a stored result says (the row_ok of SpecInv1) ---------- *)
 Definition fresh (s : istate) (k : key) : Prop :=
   forall d, In d (deps s k) -> d_order d = false -> d_single d = false -> cAt s (d_key d) <= bAt s k.
 (* the rule a stored result was computed by: the rule of its key with its signature *)
